@@ -399,11 +399,24 @@ def main_check(prop: str, tier: str, seed: int, replay: Optional[str]) -> int:
         print(f'TIMEOUT property={prop} after {ctx.elapsed():.0f}s', file=sys.stderr)
         write_evidence(ctx, mod, 0)
         return 2
-    except Exception:
-        traceback.print_exc()
-        ctx.notes.append('harness crashed: ' + traceback.format_exc()[-800:])
-        write_evidence(ctx, mod, 0)
-        return 2
+    except Exception as exc:
+        # An exception that is NOT of the library's hierarchy and was raised INSIDE the library under test while a
+        # check was driving it is itself a failing input of the run (no property admits a raw AttributeError/TypeError
+        # ... escaping from the public calls the harnesses make); anything else is a crash of the harness (exit 2).
+        tb = traceback.extract_tb(exc.__traceback__)
+        lib_root = os.path.join(os.environ.get('XMLSCHEMA_REPO') or '/repo', 'xmlschema') + os.sep
+        in_lib = bool(tb) and tb[-1].filename.startswith(lib_root)
+        is_lib_exc = any(c.__module__.startswith('xmlschema') for c in type(exc).__mro__)
+        if in_lib and not is_lib_exc and not isinstance(exc, (MemoryError, RecursionError)):
+            frames = [f'{f.filename}:{f.lineno} {f.name}' for f in tb[-12:]]
+            ctx.failure('an exception outside the library hierarchy escaped from the library while the check was '
+                        'driving it (the run stopped there)',
+                        {'exception': type(exc).__name__, 'message': str(exc)[:300]}, {'traceback': frames})
+        else:
+            traceback.print_exc()
+            ctx.notes.append('harness crashed: ' + traceback.format_exc()[-800:])
+            write_evidence(ctx, mod, 0)
+            return 2
     rc = decide(ctx, mod)
     write_evidence(ctx, mod, 1 if rc == 1 else 0)
     tag = 'ok' if rc == 0 else 'VIOLATION'
